@@ -2044,3 +2044,481 @@ def install(m):
             m.store(p, none())
             return old
         raise Unsupported('take of %r' % (old,))
+
+
+# =============================================================================
+# second batch of summaries (iterator adaptors, more Vec / str / Option methods)
+
+class FilterIter(PyIter):
+    def __init__(self, inner, f, mode='filter'):
+        self.inner, self.f, self.mode = inner, f, mode
+
+    def next(self, m):
+        while True:
+            r = self.inner.next(m)
+            if r.variant == 'None':
+                return r
+            x = r.fields[0]
+            if self.mode == 'filter':
+                if m.ctx.branch(m.call_value(self.f, [Ptr(Cell(x), ())])):
+                    return some(x)
+            else:   # filter_map
+                y = m.call_value(self.f, [x])
+                if y.variant == 'Some':
+                    return y
+
+
+class ChainIter(PyIter):
+    def __init__(self, a, b):
+        self.a, self.b = a, b
+
+    def next(self, m):
+        r = self.a.next(m)
+        if r.variant == 'Some':
+            return r
+        return self.b.next(m)
+
+
+class ZipIter(PyIter):
+    def __init__(self, a, b):
+        self.a, self.b = a, b
+
+    def next(self, m):
+        x = self.a.next(m)
+        if x.variant == 'None':
+            return x
+        y = self.b.next(m)
+        if y.variant == 'None':
+            return y
+        return some(Tuple([x.fields[0], y.fields[0]]))
+
+
+def drain_iter(m, it):
+    out = []
+    while True:
+        r = it.next(m)
+        if r.variant == 'None':
+            return out
+        out.append(r.fields[0])
+
+
+def install2(m):
+    L = m.lib
+
+    def reg(*names):
+        def deco(f):
+            for n in names:
+                L[n] = f
+            return f
+        return deco
+
+    @reg('append')
+    def _append(m, a, c, rt):
+        dst, src = deref(m, a[0]), deref(m, a[1])
+        dst.elems.extend(src.elems)
+        src.elems[:] = []
+        return unit()
+
+    @reg('filter')
+    def _filter(m, a, c, rt):
+        if isinstance(a[0], Adt):
+            v = a[0]
+            if v.variant == 'Some' and m.ctx.branch(m.call_value(a[1], [Ptr(Cell(v.fields[0]), ())])):
+                return v
+            return none()
+        return FilterIter(to_iter(m, a[0]), a[1])
+
+    @reg('filter_map')
+    def _filter_map(m, a, c, rt):
+        return FilterIter(to_iter(m, a[0]), a[1], 'filter_map')
+
+    @reg('chain')
+    def _chain(m, a, c, rt):
+        return ChainIter(to_iter(m, a[0]), to_iter(m, a[1]))
+
+    @reg('zip')
+    def _zip(m, a, c, rt):
+        return ZipIter(to_iter(m, a[0]), to_iter(m, a[1]))
+
+    @reg('rev')
+    def _rev(m, a, c, rt):
+        return ListIter(drain_iter(m, to_iter(m, a[0]))[::-1])
+
+    @reg('skip')
+    def _skip(m, a, c, rt):
+        return ListIter(drain_iter(m, to_iter(m, a[0]))[a[1].v:])
+
+    @reg('Iterator::take', 'take_n')
+    def _take_n(m, a, c, rt):
+        return ListIter(drain_iter(m, to_iter(m, a[0]))[:a[1].v])
+
+    @reg('cloned', 'copied')
+    def _cloned(m, a, c, rt):
+        if isinstance(a[0], Adt):
+            v = a[0]
+            return some(clone_val(deref(m, v.fields[0]))) if v.variant == 'Some' else v
+        return ListIter([clone_val(deref(m, x)) if isinstance(x, Ptr) and x.meta is None else x for x in drain_iter(m, to_iter(m, a[0]))])
+
+    @reg('peekable', 'fuse', 'by_ref')
+    def _same_iter(m, a, c, rt):
+        return to_iter(m, a[0]) if c.method != 'by_ref' else a[0]
+
+    @reg('count')
+    def _count(m, a, c, rt):
+        return usize(len(drain_iter(m, to_iter(m, a[0]))))
+
+    @reg('Iterator::last')
+    def _it_last(m, a, c, rt):
+        xs = drain_iter(m, to_iter(m, a[0]))
+        return some(xs[-1]) if xs else none()
+
+    @reg('nth')
+    def _nth(m, a, c, rt):
+        xs = drain_iter(m, to_iter(m, a[0]))
+        return some(xs[a[1].v]) if a[1].v < len(xs) else none()
+
+    @reg('any', 'all')
+    def _any(m, a, c, rt):
+        it = to_iter(m, a[0])
+        while True:
+            r = it.next(m)
+            if r.variant == 'None':
+                return c.method == 'all'
+            t = m.ctx.branch(m.call_value(a[1], [r.fields[0]]))
+            if c.method == 'any' and t:
+                return True
+            if c.method == 'all' and not t:
+                return False
+
+    @reg('position', 'Iterator::find', 'find_map')
+    def _position(m, a, c, rt):
+        it = to_iter(m, a[0])
+        k = 0
+        while True:
+            r = it.next(m)
+            if r.variant == 'None':
+                return none()
+            x = r.fields[0]
+            if c.method == 'find_map':
+                y = m.call_value(a[1], [x])
+                if y.variant == 'Some':
+                    return y
+            else:
+                arg = x if c.method == 'position' else Ptr(Cell(x), ())
+                if m.ctx.branch(m.call_value(a[1], [arg])):
+                    return some(usize(k) if c.method == 'position' else x)
+            k += 1
+
+    @reg('fold')
+    def _fold(m, a, c, rt):
+        acc = a[1]
+        for x in drain_iter(m, to_iter(m, a[0])):
+            acc = m.call_value(a[2], [acc, x])
+        return acc
+
+    @reg('for_each')
+    def _for_each(m, a, c, rt):
+        for x in drain_iter(m, to_iter(m, a[0])):
+            m.call_value(a[1], [x])
+        return unit()
+
+    @reg('flat_map', 'flatten')
+    def _flat_map(m, a, c, rt):
+        out = []
+        for x in drain_iter(m, to_iter(m, a[0])):
+            y = m.call_value(a[1], [x]) if c.method == 'flat_map' else x
+            out.extend(drain_iter(m, to_iter(m, y)))
+        return ListIter(out)
+
+    @reg('reverse')
+    def _reverse(m, a, c, rt):
+        p = a[0] if (isinstance(a[0], Ptr) and a[0].meta is not None) else fat(m, a[0], 'slice')
+        cont = container_of(m, p)
+        _, s, n = p.meta
+        cont.elems[s:s + n] = cont.elems[s:s + n][::-1]
+        return unit()
+
+    @reg('swap')
+    def _swap(m, a, c, rt):
+        if isinstance(a[1], Int):
+            p = a[0] if (isinstance(a[0], Ptr) and a[0].meta is not None) else fat(m, a[0], 'slice')
+            cont = container_of(m, p)
+            s = p.meta[1]
+            i, j = s + a[1].v, s + a[2].v
+            cont.elems[i], cont.elems[j] = cont.elems[j], cont.elems[i]
+            return unit()
+        x, y = m.load(a[0]), m.load(a[1])
+        m.store(a[0], y)
+        m.store(a[1], x)
+        return unit()
+
+    @reg('dedup')
+    def _dedup(m, a, c, rt):
+        v = deref(m, a[0])
+        out = []
+        for e in v.elems:
+            if out and m.ctx.branch(m.values_eq(m, out[-1], e)):
+                continue
+            out.append(e)
+        v.elems[:] = out
+        return unit()
+
+    @reg('drain')
+    def _drain(m, a, c, rt):
+        v = deref(m, a[0])
+        if isinstance(v, HashMapObj):
+            items = [Tuple([k, cc.v]) for k, cc in [v.entries[i] for i in hashmap_order(m, v)]]
+            v.entries[:] = []
+            return ListIter(items)
+        rg = a[1] if len(a) > 1 else None
+        lo, hi = 0, len(v.elems)
+        if isinstance(rg, Adt):
+            if rg.name == 'Range':
+                lo, hi = rg.fields[0].v, rg.fields[1].v
+            elif rg.name == 'RangeFrom':
+                lo = rg.fields[0].v
+            elif rg.name == 'RangeTo':
+                hi = rg.fields[0].v
+        items = v.elems[lo:hi]
+        del v.elems[lo:hi]
+        return ListIter(items)
+
+    @reg('into_bytes', 'into_boxed_str', 'into_boxed_slice', 'into_string', 'into_owned', 'into_vec', 'shrink_to_fit', 'reserve')
+    def _into_same(m, a, c, rt):
+        v = a[0]
+        if c.method in ('shrink_to_fit', 'reserve'):
+            return unit()
+        if c.method == 'into_owned':
+            if isinstance(v, Adt) and v.name == 'Cow':
+                inner = v.fields[0]
+                if isinstance(inner, VecObj):
+                    return inner
+                return VecObj(list(elems_of(m, inner)), 'string' if inner.meta[0] == 'str' else 'vec')
+        if c.method == 'into_bytes':
+            return VecObj(v.elems, 'vec')
+        if c.method == 'into_string':
+            return VecObj(v.elems, 'string')
+        return v
+
+    def trim_generic(m, p, pred, start=True, end=True):
+        es = elems_of(m, p)
+        lo, hi = 0, len(es)
+        if start:
+            while lo < hi and m.ctx.branch(pred(es[lo])):
+                lo += 1
+        if end:
+            while hi > lo and m.ctx.branch(pred(es[hi - 1])):
+                hi -= 1
+        return sub(p, lo, hi - lo)
+
+    def ws_pred(e):
+        # Unicode White_Space restricted to what a single byte can be (ASCII whitespace); non-ASCII whitespace is
+        # multi-byte and is not trimmed by this summary: callers with non-ASCII text get Unsupported below
+        if not e.sym:
+            return e.v in (0x20, 0x09, 0x0A, 0x0B, 0x0C, 0x0D)
+        return z3.Or(e.v == 0x20, z3.And(z3.UGE(e.v, 0x09), z3.ULE(e.v, 0x0D)))
+
+    @reg('trim', 'trim_start', 'trim_end', 'trim_ascii', 'trim_ascii_start', 'trim_ascii_end')
+    def _trim(m, a, c, rt):
+        p = a[0] if (isinstance(a[0], Ptr) and a[0].meta is not None) else fat(m, a[0], 'str')
+        es = elems_of(m, p)
+        if not c.method.startswith('trim_ascii'):
+            for e in es:
+                if not m.ctx.branch((e.v < 0x80) if not e.sym else z3.ULT(e.v, 0x80)):
+                    raise Unsupported('str::trim on non-ASCII text')
+            pred = ws_pred
+        else:
+            def pred(e):
+                if not e.sym:
+                    return e.v in (0x20, 0x09, 0x0A, 0x0C, 0x0D)
+                return z3.Or(e.v == 0x20, e.v == 0x09, e.v == 0x0A, e.v == 0x0C, e.v == 0x0D)
+        return trim_generic(m, p, pred, not c.method.endswith('end'), not c.method.endswith('start'))
+
+    @reg('trim_matches', 'trim_start_matches', 'trim_end_matches')
+    def _trim_matches(m, a, c, rt):
+        pred0 = char_pred(m, a[1])
+        return trim_generic(m, a[0], lambda e: pred0(e, 0), not c.method.startswith('trim_end'), not c.method.startswith('trim_start'))
+
+    @reg('strip_prefix', 'strip_suffix')
+    def _strip(m, a, c, rt):
+        p = a[0]
+        es = elems_of(m, p)
+        pat = a[1]
+        pt = deref(m, pat) if not (isinstance(pat, Ptr) and pat.meta is not None) else pat
+        pe = char_utf8(m, pt) if isinstance(pt, Int) else elems_of(m, pat)
+        if len(pe) > len(es):
+            return none()
+        if c.method == 'strip_prefix':
+            if m.ctx.branch(bytes_eq(es[:len(pe)], pe)):
+                return some(sub(p, len(pe), len(es) - len(pe)))
+        else:
+            if m.ctx.branch(bytes_eq(es[len(es) - len(pe):], pe)):
+                return some(sub(p, 0, len(es) - len(pe)))
+        return none()
+
+    @reg('str::find', 'rfind')
+    def _str_find(m, a, c, rt):
+        es = elems_of(m, a[0])
+        pat = a[1]
+        pt = deref(m, pat) if not (isinstance(pat, Ptr) and pat.meta is not None) else pat
+        if isinstance(pt, (Closure, FnItem)):
+            raise Unsupported('str::find with closure')
+        pe = char_utf8(m, pt) if isinstance(pt, Int) else elems_of(m, pat)
+        rng = range(0, len(es) - len(pe) + 1)
+        if c.method == 'rfind':
+            rng = reversed(rng)
+        for i in rng:
+            if m.ctx.branch(bytes_eq(es[i:i + len(pe)], pe)):
+                return some(usize(i))
+        return none()
+
+    @reg('rsplit_once')
+    def _rsplit_once(m, a, c, rt):
+        p = a[0]
+        pred = char_pred(m, a[1])
+        es = elems_of(m, p)
+        for i in range(len(es) - 1, -1, -1):
+            if m.ctx.branch(pred(es[i], i)):
+                return some(Tuple([sub(p, 0, i), sub(p, i + 1, len(es) - i - 1)]))
+        return none()
+
+    @reg('rsplit', 'rsplitn')
+    def _rsplit(m, a, c, rt):
+        raise Unsupported('rsplit')
+
+    @reg('split_whitespace', 'split_ascii_whitespace')
+    def _split_ws(m, a, c, rt):
+        p = a[0]
+        es = elems_of(m, p)
+        pieces = []
+        start = None
+        for i, e in enumerate(es):
+            if m.ctx.branch(ws_pred(e)):
+                if start is not None:
+                    pieces.append(sub(p, start, i - start))
+                    start = None
+            elif start is None:
+                start = i
+        if start is not None:
+            pieces.append(sub(p, start, len(es) - start))
+        return ListIter(pieces)
+
+    @reg('lines')
+    def _lines(m, a, c, rt):
+        raise Unsupported('str::lines')
+
+    @reg('repeat')
+    def _repeat(m, a, c, rt):
+        es = elems_of(m, a[0])
+        return new_string(list(es) * a[1].v)
+
+    @reg('char_indices')
+    def _char_indices(m, a, c, rt):
+        es = elems_of(m, a[0])
+        out = []
+        i = 0
+        while i < len(es):
+            ch, w = decode_char(m, es, i)
+            out.append(Tuple([usize(i), ch]))
+            i += w
+        return ListIter(out)
+
+    @reg('is_char_boundary')
+    def _is_char_boundary(m, a, c, rt):
+        es = elems_of(m, a[0])
+        i = a[1].v
+        if i == 0 or i == len(es):
+            return True
+        if i > len(es):
+            return False
+        e = es[i]
+        return ((e.v & 0xC0) != 0x80) if not e.sym else ((e.v & 0xC0) != 0x80)
+
+    @reg('Option::or', 'or_else', 'Option::and', 'xor')
+    def _opt_or(m, a, c, rt):
+        v = a[0]
+        if c.method in ('or',):
+            return v if v.variant in ('Some', 'Ok') else a[1]
+        if c.method == 'or_else':
+            return v if v.variant in ('Some', 'Ok') else m.call_value(a[1], [] if v.name == 'Option' else [v.fields[0]])
+        if c.method == 'and':
+            return a[1] if v.variant in ('Some', 'Ok') else v
+        raise Unsupported(c.method)
+
+    @reg('unwrap_or_else')
+    def _unwrap_or_else(m, a, c, rt):
+        v = a[0]
+        if v.variant in ('Some', 'Ok'):
+            return v.fields[0]
+        return m.call_value(a[1], [] if v.name == 'Option' else [v.fields[0]])
+
+    @reg('map_or', 'map_or_else')
+    def _map_or(m, a, c, rt):
+        v = a[0]
+        if v.variant in ('Some', 'Ok'):
+            return m.call_value(a[2], [v.fields[0]])
+        if c.method == 'map_or':
+            return a[1]
+        return m.call_value(a[1], [] if v.name == 'Option' else [v.fields[0]])
+
+    @reg('is_some_and', 'is_ok_and', 'is_none_or')
+    def _is_some_and(m, a, c, rt):
+        v = a[0]
+        if v.variant in ('Some', 'Ok'):
+            return m.call_value(a[1], [v.fields[0]])
+        return c.method == 'is_none_or'
+
+    @reg('ok_or_else')
+    def _ok_or_else(m, a, c, rt):
+        v = a[0]
+        return ok(v.fields[0]) if v.variant == 'Some' else err(m.call_value(a[1], []))
+
+    @reg('Result::err')
+    def _res_err(m, a, c, rt):
+        v = a[0]
+        return some(v.fields[0]) if v.variant == 'Err' else none()
+
+    @reg('and_then')
+    def _and_then(m, a, c, rt):
+        v = a[0]
+        if v.variant in ('Some', 'Ok'):
+            return m.call_value(a[1], [v.fields[0]])
+        return v
+
+    @reg('min', 'max')
+    def _minmax(m, a, c, rt):
+        x, y = a[0], a[1]
+        if isinstance(x, Int):
+            lt = m.binop('Lt', x, y)
+            if c.method == 'min':
+                return m.ite(lt, x, y) if not isinstance(lt, bool) else (x if lt else y)
+            return m.ite(lt, y, x) if not isinstance(lt, bool) else (y if lt else x)
+        raise Unsupported('min/max of %r' % (x,))
+
+    @reg('saturating_sub', 'saturating_add', 'wrapping_add', 'wrapping_sub', 'wrapping_mul', 'checked_add', 'checked_sub', 'checked_mul')
+    def _intops(m, a, c, rt):
+        x, y = a[0], a[1]
+        op = {'add': 'Add', 'sub': 'Sub', 'mul': 'Mul'}[c.method.split('_')[1]]
+        if c.method.startswith('wrapping'):
+            return m.binop(op, x, y)
+        t = m.binop(op + 'WithOverflow', x, y)
+        val, ov = t.fields
+        if c.method.startswith('checked'):
+            return none() if m.ctx.branch(ov) else some(val)
+        if m.ctx.branch(ov):
+            bits = BITS[x.ty]
+            if x.ty in SIGNED:
+                raise Unsupported('signed saturating op')
+            return Int(x.ty, 0 if op == 'Sub' else (1 << bits) - 1)
+        return val
+
+    @reg('abs', 'unsigned_abs')
+    def _abs(m, a, c, rt):
+        x = a[0]
+        if not x.sym:
+            return Int(x.ty if c.method == 'abs' else 'u' + x.ty[1:], abs(x.v))
+        raise Unsupported('abs of symbolic')
+
+    @reg('is_ascii_graphic_')
+    def _unused(m, a, c, rt):
+        raise Unsupported('unused')
